@@ -125,19 +125,20 @@ type timerEnt struct {
 
 // Sim is one simulated execution.
 type Sim struct {
-	gs         []*G
-	running    *G
-	now        time.Duration
-	ch         *Chooser
-	driverWake chan struct{}
-	stopStatus Status
-	stopped    bool
-	reqG       *G
-	reqWait    bool
-	poisoned   bool
-	closed     map[uintptr]reflect.Value
-	timers     []*timerEnt
-	timerSeq   uint64
+	gs            []*G
+	running       *G
+	now           time.Duration
+	ch            *Chooser
+	driverWake    chan struct{}
+	driverStopped bool
+	stopStatus    Status
+	stopped       bool
+	reqG          *G
+	reqWait       bool
+	poisoned      bool
+	closed        map[uintptr]reflect.Value
+	timers        []*timerEnt
+	timerSeq      uint64
 
 	countdown int // decision points until next pre-emption; <0 = never
 	GapScale  int
@@ -629,9 +630,14 @@ func (s *Sim) step(me *G, wait bool) bool {
 		s.running = nil
 		s.stopStatus = stop
 		s.stopped = true
-		if !RaceBuild && me != nil {
-			// (the driver itself runs the first step of RunUntil: no token then)
-			signalRaw(s.driverWake)
+		if !RaceBuild {
+			if me != nil {
+				signalRaw(s.driverWake)
+			} else {
+				// the driver itself ran the first step of RunUntil and
+				// nothing is runnable: no goroutine will send a token
+				s.driverStopped = true
+			}
 		}
 		return false
 	}
@@ -674,10 +680,22 @@ func (s *Sim) RunUntil(until func() bool, maxNow time.Duration) Status {
 		return Until
 	}
 	s.Steps--
+	s.driverStopped = false
 	s.step(nil, false)
+	if !RaceBuild {
+		// Exactly one token is sent per run, by the goroutine whose step
+		// stops it.  It must be consumed even when that goroutine has already
+		// set s.stopped by the time the driver gets here: a token left behind
+		// fills the channel and blocks the stopping goroutine of a later run
+		// for ever.
+		if !s.driverStopped {
+			parkRaw(s.driverWake)
+		}
+		return s.stopStatus
+	}
 	for !s.stopped {
 		parkRaw(s.driverWake)
-		if RaceBuild && !s.stopped {
+		if !s.stopped {
 			s.step(s.reqG, s.reqWait)
 		}
 	}
